@@ -13,6 +13,7 @@
 //!   ntf    [[peer, conn, 1|0]..]  drained NotifyHandler(JoinedMesh=1 / LeftMesh=0), in order
 //!   keep   [conn..]               connections whose real Handler::connection_keep_alive() is true
 //!   neg/low [peer..]              connected peers with score < 0 / < publish_threshold
+//!   sc     [[peer, score]..]      score of every connected peer, rounded to an integer
 //!   gr     [[peer, topic]..]      GRAFTs queued for peers in this step
 //!   pr     [[peer, topic, secs]..] PRUNEs queued (secs = -1 when the backoff field is absent)
 //!   pubto  [peer..]               recipients of a Publish in this step
@@ -323,8 +324,10 @@ impl<F: TopicSubscriptionFilter + Send + 'static> World<F> {
         let keep: Vec<usize> = self.handlers.iter().filter(|(_, h)| h.connection_keep_alive()).map(|(c, _)| *c).collect();
         let mut neg = vec![];
         let mut low = vec![];
+        let mut sc = vec![];
         for &i in &cp {
             if let Some(s) = self.gs.peer_score(&self.peers[i as usize]) {
+                sc.push(json!([i, s.round().clamp(-1.0e9, 1.0e9) as i64]));
                 if s < 0.0 {
                     neg.push(i);
                 }
@@ -372,6 +375,7 @@ impl<F: TopicSubscriptionFilter + Send + 'static> World<F> {
         ev["keep"] = json!(keep);
         ev["neg"] = json!(neg);
         ev["low"] = json!(low);
+        ev["sc"] = json!(sc);
         ev["gr"] = json!(gr);
         ev["pr"] = json!(pr);
         ev["pubto"] = json!(pubto);
